@@ -49,6 +49,7 @@ __all__ = [
     "TreeDict",
     "TreeExtension",
     "UnmergedEntries",
+    "UnsupportedIndexExtension",
     "UnsupportedIndexFormat",
     "UntrackedExtension",
     "blob_from_path_and_mode",
@@ -905,6 +906,19 @@ class UnsupportedIndexFormat(Exception):
         self.index_format_version = version
 
 
+class UnsupportedIndexExtension(Exception):
+    """An index extension that must be understood, but is not, was encountered."""
+
+    def __init__(self, signature: bytes) -> None:
+        """Initialize UnsupportedIndexExtension exception.
+
+        Args:
+            signature: The 4-byte signature of the extension
+        """
+        super().__init__(f"index uses {signature!r} extension, which is not supported")
+        self.signature = signature
+
+
 def read_index_header(f: BinaryIO) -> tuple[int, int]:
     """Read an index header from a file.
 
@@ -989,12 +1003,6 @@ def read_index_dict_with_version(
         if len(signature) < 4:
             break
 
-        # Check if it's a valid extension signature (4 uppercase letters)
-        if not all(65 <= b <= 90 for b in signature):
-            # Not an extension, seek back
-            f.seek(-4, 1)
-            break
-
         # Read extension size
         size_data = f.read(4)
         if len(size_data) < 4:
@@ -1007,6 +1015,10 @@ def read_index_dict_with_version(
             break
 
         extension = IndexExtension.from_raw(signature, data)
+        if type(extension) is IndexExtension and not 65 <= signature[0] <= 90:
+            # Only a signature that starts with 'A'..'Z' marks an extension
+            # that may be carried along without being understood.
+            raise UnsupportedIndexExtension(signature)
         extensions.append(extension)
 
     return ret, version, extensions
